@@ -14,8 +14,11 @@ def _state(p):
 
 def make_tracer(base_cls, log):
     class Tracer(base_cls):
+        _in_start = False
+
         def unknown_starttag(self, tag, attrs):
             attrs = list(attrs)
+            self._in_start = True
             pre = _state(self)
             try:
                 norm = dict(self._normalize_attributes(a) for a in attrs)
@@ -26,6 +29,7 @@ def make_tracer(base_cls, log):
             try:
                 return super().unknown_starttag(tag, attrs)
             finally:
+                self._in_start = False
                 rec["post"] = _state(self)
 
         def unknown_endtag(self, tag):
@@ -49,7 +53,7 @@ def make_tracer(base_cls, log):
             return super().handle_entityref(ref)
 
         def track_namespace(self, prefix, uri):
-            log.append({"k": "ns", "prefix": prefix, "uri": uri})
+            log.append({"k": "ns", "prefix": prefix, "uri": uri, "in_start": self._in_start})
             return super().track_namespace(prefix, uri)
     Tracer.__name__ = "Tracer" + base_cls.__name__
     return Tracer
@@ -59,13 +63,21 @@ def traced_parse(doc, headers=None, loose=False, **kw):
     """returns (result | exception, event log)"""
     import feedparser
     import feedparser.api as api
+    import feedparser.mixin as mixin
     log = []
     S, L = make_tracer(api.StrictFeedParser, log), make_tracer(api.LooseFeedParser, log)
     saved = api._XML_AVAILABLE
+    real_join = mixin._urljoin
+
+    def join_spy(base, uri):
+        r = real_join(base, uri)
+        log.append({"k": "join", "base": base, "uri": uri, "result": r})
+        return r
     try:
         if loose:
             api._XML_AVAILABLE = False
-        with mock.patch.object(api, "StrictFeedParser", S), mock.patch.object(api, "LooseFeedParser", L), warnings.catch_warnings():
+        with mock.patch.object(api, "StrictFeedParser", S), mock.patch.object(api, "LooseFeedParser", L), \
+                mock.patch.object(mixin, "_urljoin", join_spy), warnings.catch_warnings():
             warnings.simplefilter("ignore")
             try:
                 r = feedparser.parse(doc, response_headers=headers, **kw)
